@@ -6,6 +6,7 @@ CONSTANTS InitPen = 1
           Grid = {0, 1, 2, 3}
           NSeries = 2
           MaxLen = 4
+          WithCounterInputs = FALSE
 INVARIANTS C40_EveryAggregateSampleKept
 PROPERTY Terminates
 CHECK_DEADLOCK FALSE
